@@ -412,6 +412,42 @@ func (c *runCtx) quietBlocks(n int, absent []string) {
 		var req abci.RequestBeginBlock
 		res = guard(func() { req = nd.BeginReq(h, t, absent, nil) })
 		if res.Panic == "" {
+			// the node would stop the process at a halt block or an unknown version: same decision hook as in the logged path
+			var halt, known bool
+			res = guard(func() {
+				halt = nd.App.VerifWouldHalt(h, req.LastCommitInfo.Votes)
+				known = nd.App.VerifKnownVersion(h)
+			})
+			if res.Panic == "" && (halt || !known) {
+				jump := c.rec("Jump", c.h)
+				c.diskProjection(jump)
+				c.proj(jump, c.h)
+				c.r.emit(jump)
+				rec := c.rec("Halt", h)
+				rec.Begin = &RecBegin{Time: t.Unix(), Hour: t.Hour(), Absent: append([]string{}, absent...), Evidence: []string{}, Present: []string{}}
+				abs := map[string]bool{}
+				for _, a := range absent {
+					abs[a] = true
+				}
+				if cs := nd.App.CurrentState(); cs != nil {
+					for _, v := range cs.Validators().GetValidators() {
+						if name := nd.N.PubName(v.PubKey); !abs[name] {
+							rec.Begin.Present = append(rec.Begin.Present, name)
+						}
+					}
+				}
+				sort.Strings(rec.Begin.Present)
+				if !known {
+					rec.Resp.Log = "unknown version"
+				}
+				c.proj(rec, h)
+				c.dead = true
+				c.r.emit(rec)
+				c.r.Stats["halted"]++
+				return
+			}
+		}
+		if res.Panic == "" {
 			res = nd.Begin(req)
 		}
 		if res.Panic == "" {
